@@ -116,7 +116,7 @@ func runF(op string, in M) (M, M) {
 		return out, M{"q": vLimbs(q), "s": vLimbs(s)}
 	case "shift.derive":
 		sc := slipCurve(in["curve"].(string))
-		seed := vBytes(in["seed"])
+		seed := vBuf("slip10 seed", in["seed"])
 		path := vIntList(in["path"])
 		idx := uint32(vIntOf(in["index"]))
 		out := M{"priv_ok": false, "pub_ok": false, "priv_pub": []int{}, "pub": []int{}, "priv_chain": []int{}, "pub_chain": []int{}, "priv_fp": []int{}, "pub_fp": []int{}}
@@ -131,7 +131,11 @@ func runF(op string, in M) (M, M) {
 				}
 			}
 			c1, e1 := parent.DeriveChild(idx)
-			c2, e2 := parent.Public().DeriveChild(idx)
+			pubParent := parent.Public()
+			c2, e2 := pubParent.DeriveChild(idx)
+			// both parents go on deriving other children before the two results are compared
+			parent.DeriveChild((idx ^ 1) &^ slip10.Hardened)
+			pubParent.DeriveChild((idx ^ 1) &^ slip10.Hardened)
 			out["priv_ok"], out["pub_ok"] = e1 == nil, e2 == nil
 			if e1 == nil {
 				p1 := c1.Public()
@@ -157,6 +161,7 @@ func TestVerifDriver(t *testing.T) {
 		out, cert := runF(op, in)
 		rec.i++
 		rec.count++
+		vPost(out)
 		b, err := json.Marshal(map[string]interface{}{"t": rec.t, "i": rec.i, "op": op, "in": in, "out": out, "cert": cert})
 		if err != nil {
 			panic(err)
